@@ -71,7 +71,7 @@ static void* worker(void* arg)
     if (gp_str_length(str) != 2 * (size_t)rounds) { t->bad = 1; snprintf(t->what, sizeof t->what, "own string has length %zu", gp_str_length(str)); }
     for (int r = 0; r < rounds; r++) { int* g = gp_hash_map_get(map, &r, sizeof r); if (!g || *g != r) { t->bad = 1; snprintf(t->what, sizeof t->what, "own map lost key %d", r); break; } }
     /* the thread ends with a scope open and scratch memory in use */
-    (void)gp_begin(0);
+    for (int i = 0; i < (t->id % 3 == 0 ? 70 : 1); i++) (void)gp_begin(0);     /* some threads leave more scopes than one registry node holds */
     return NULL;
 }
 
